@@ -1,7 +1,8 @@
 SPECIFICATION Spec
 CONSTANTS
+  Dev = {"hide-bundles"}
   MaxCalls = 3
-  AsImplemented = TRUE
-INVARIANTS SuccsLive
+  MaxOps = 5
+INVARIANTS NoUseLeft
 VIEW View
 CHECK_DEADLOCK FALSE
